@@ -1,5 +1,6 @@
 import P9Model.Fsimpl.Qid
 import P9Model.Lemmas.ModeTable
+import P9Model.Lemmas.Lock.Mapper
 /-!
 # C20 — QID identity and mode/type mapping are stable and injective
 -/
@@ -311,6 +312,11 @@ theorem qid_type_ignores_perm : ∀ t ∈ validTypes, ∀ p, p < 4096 → fileTy
   have key := fileType_table
   simp only [List.all_eq_true, List.mem_range, beq_iff_eq] at key
   exact key t ht p hp
+
+/-- O (**the QID mapper's table is only touched under its mutex**, regenerated from
+fsimpl/qids – the D7 `fix:`): both accesses of `Mapper.paths` in `QIDFor` happen with `mu` held
+(the lockset obligation on the script of `Mapper.QIDFor`; both accesses are present). -/
+theorem mapper_lockset : Locks.mapperLocksetOk = true := Locks.mapper_lockset_fact
 
 /-! ### non-vacuity -/
 example : encodeLikely 0x801 12345 = some (12345 + 1 * two39 + 8 * two51) := by decide
